@@ -251,8 +251,8 @@ def chainOk : Option UnresolvedCallArgument → List UnresolvedCallArgument → 
 
 /-! ## the proved subset -/
 
-/-- instruction kinds whose round trip is proved in `QV.C02.Props` (`C02_roundtrip_partial`) -/
-def provedKind : Instruction → Bool
+/-- the proved kinds that print on ONE line (everything but the six definition kinds) -/
+def lineKind : Instruction → Bool
   | .arithmetic _ | .binaryLogic _ | .comparison _ | .convert _ | .exchange _ | .move _ | .load _
   | .store _ | .unaryLogic _ | .halt | .nop | .wait | .jump _ | .jumpWhen _ | .jumpUnless _ | .label _
   | .include _ | .declaration _ | .fence _ | .reset _ | .measurement _ | .pragma _ => true
@@ -261,5 +261,35 @@ def provedKind : Instruction → Bool
   | .rawCapture r => r.memoryReference.name != "i"
   | .call c => chainOk none c.arguments
   | _ => false
+
+/-- the definition kinds whose text does not end in a newline: DEFWAVEFORM, DEFFRAME, DEFCAL (with a body of
+one-line kinds) -/
+def defKind : Instruction → Bool
+  | .waveformDefinition _ | .frameDefinition _ => true
+  | .calibrationDefinition _ body => body.all lineKind
+  | _ => false
+
+/-- the kinds whose text is a block not ending in a newline -/
+def blockKind (i : Instruction) : Bool := lineKind i || defKind i
+
+/-- the DEFGATE specifications of the proved subset: no empty matrix row; in a SEQUENCE, no qubit variable
+named like a reserved word (known finding C02/qubit-variable-named-like-keyword) -/
+def gateSpecKind : GateSpecification → Bool
+  | .matrix rows => rows.all fun r => !r.isEmpty
+  | .sequence s => s.gates.all fun g => g.qubits.all noPlaceholder
+  | _ => true
+
+/-- the definition kinds whose text ends in a newline (which the lexer merges with the program writer's own
+newline): DEFCAL MEASURE and DEFCIRCUIT with a body of one-line kinds, DEFGATE -/
+def nlKind : Instruction → Bool
+  | .measureCalibrationDefinition _ body => body.all lineKind
+  | .circuitDefinition _ _ _ body => body.all lineKind
+  | .gateDefinition g => gateSpecKind g.specification
+  | _ => false
+
+/-- instruction kinds whose round trip is proved in `QV.C02.Props` (`C02_roundtrip_partial`): the 34 one-line
+kinds, DEFWAVEFORM, DEFFRAME, DEFGATE (`gateSpecKind`), and DEFCAL / DEFCAL MEASURE / DEFCIRCUIT with a body of
+one-line kinds — all 40 kinds -/
+def provedKind (i : Instruction) : Bool := blockKind i || nlKind i
 
 end QV.C02
